@@ -11,5 +11,8 @@ CONSTANTS
   Vals = {"v1", "v2", "a, b"}
   DefaultMedia = "application/json"
   Randomized = FALSE
+  CkAlpha = {97}
+  CkLen = 0
+  CkTwoPass = FALSE
   EncLen = 1
 INVARIANT Emit
